@@ -378,8 +378,9 @@ SelectedDecl(ev, i, path) ==
    soon as any list mentions something deeper under b (b.d, b.c.x ...).                                  *)
 SetOf(paths) == {paths[k] : k \in 1..Len(paths)}
 OwnList(m) == m.ign # <<>> \/ m.proc # <<>>
-GlobalInPlay(ev) == \E i \in 1..Len(ev.masks) : ~OwnList(ev.masks[i])
-Entries(ev) == UNION {SetOf(ev.masks[i].ign) \cup SetOf(ev.masks[i].proc) : i \in 1..Len(ev.masks)}
+\* (the merged tree is built from ALL configured masks -- ev.allmasks --, also those that never match)
+GlobalInPlay(ev) == \E i \in 1..Len(ev.allmasks) : ~OwnList(ev.allmasks[i])
+Entries(ev) == UNION {SetOf(ev.allmasks[i].ign) \cup SetOf(ev.allmasks[i].proc) : i \in 1..Len(ev.allmasks)}
                \cup (IF GlobalInPlay(ev) THEN SetOf(ev.gign) \cup SetOf(ev.gproc) ELSE {})
 EMPTYNODE == <<"<empty>">>
 RECURSIVE Walk(_, _, _, _)
@@ -390,7 +391,7 @@ Walk(E, path, k, cur) ==
               IF \E e \in E : IsPrefixOf(nxt, e) THEN Walk(E, path, k + 1, nxt) ELSE EMPTYNODE
          ELSE cur                                                              \* a leaf of the tree: stay
 SelectedCoded(ev, i, path) ==
-  IF ~\E j \in 1..Len(ev.masks) : OwnList(ev.masks[j]) THEN SelectedDecl(ev, i, path)
+  IF ~\E j \in 1..Len(ev.allmasks) : OwnList(ev.allmasks[j]) THEN SelectedDecl(ev, i, path)
   ELSE LET m == ev.masks[i]
            w == Walk(Entries(ev), path, 1, <<>>)
        IN IF m.ign # <<>> THEN w \notin SetOf(m.ign)
@@ -494,4 +495,30 @@ TreeApplied(ev) ==
      /\ ev.met = (IF any THEN 1 ELSE 0)
      /\ \A i \in 1..Len(ev.masks) : (ev.mmet[i] > 0) <=> MatchedSomewhere(ev, i)
 
+
+(* NUMBER AND INDEX OF MASKS.  Every predicate above speaks about one mask at a time (and, for a leaf two masks
+   rewrite, about their order); none of them mentions the POSITION of a mask in the configured list.  A mask that
+   matches nothing (empty table on every value, before and after the other masks) has no effect and sets no mark.
+   So an event with N configured masks, of which only those at the positions ev.im (one or two) ever match, is
+   judged exactly like the same event with the silent masks removed -- whatever N is and wherever the matching
+   masks sit (first, 64th, 131st).  How the code represents "the masks that list this field" must not matter
+   (mechanism M_MaskSetUnbounded, see MaskSet.tla).                                                        *)
+Silent(ev, j) ==
+  /\ ev.masks[j].hasRe /\ ev.masks[j].rules = <<>> /\ ev.masks[j].doif = <<>>
+  /\ \A l \in 1..Len(ev.before) :
+       ev.before[l].mi # <<>> => ev.before[l].mi[j].Tb = <<>> /\ ev.before[l].mi[j].Tm = <<>>
+OthersSilent(ev) ==
+  /\ Len(ev.im) \in {1, 2} /\ \A k \in 1..Len(ev.im) : ev.im[k] \in 1..Len(ev.masks)
+  /\ (Len(ev.im) = 2 => ev.im[1] < ev.im[2])
+  /\ \A j \in 1..Len(ev.masks) : (\A k \in 1..Len(ev.im) : ev.im[k] # j) => Silent(ev, j)
+ProjectMasks(ev) ==
+  [allmasks |-> ev.masks] @@
+  [ev EXCEPT !.masks  = [k \in 1..Len(ev.im) |-> ev.masks[ev.im[k]]],
+             !.mmet   = IF ev.mmet = <<>> THEN <<>> ELSE [k \in 1..Len(ev.im) |-> ev.mmet[ev.im[k]]],
+             !.before = [l \in 1..Len(ev.before) |->
+                           IF ev.before[l].mi = <<>> THEN ev.before[l]
+                           ELSE [ev.before[l] EXCEPT !.mi = [k \in 1..Len(ev.im) |-> ev.before[l].mi[ev.im[k]]]]]]
+\* a silent mask has no metric of its own (its applied field is excluded by TreeApplied: it is not wanted)
+SilentUnmarked(ev) ==
+  ev.mmet # <<>> => \A j \in 1..Len(ev.masks) : (\A k \in 1..Len(ev.im) : ev.im[k] # j) => ev.mmet[j] = 0
 =============================================================================
